@@ -60,6 +60,7 @@ func walkAST(root interface{}, visit func(n ast.Node, parent ast.Node, field str
 // (the same order for two trees of the same shape).
 func astTokens(root interface{}) []token.Token {
 	var out []token.Token
+	var pending []string // trivia of skipped parenthesis tokens
 	tokType := reflect.TypeOf(token.Token{})
 	var rec func(v reflect.Value)
 	rec = func(v reflect.Value) {
@@ -70,11 +71,21 @@ func astTokens(root interface{}) []token.Token {
 			}
 		case reflect.Struct:
 			if v.Type() == tokType {
-				out = append(out, v.Interface().(token.Token))
+				t := v.Interface().(token.Token)
+				if len(pending) > 0 {
+					t.LeadingComments = append(append([]string(nil), pending...), t.LeadingComments...)
+					pending = nil
+				}
+				out = append(out, t)
 				return
 			}
 			if v.Type() == reflect.TypeOf(ast.GroupedExpression{}) {
-				// parentheses may be added by the printer: their tokens are not counted
+				// parentheses may be added by the printer: their tokens are not counted,
+				// and what stands in front of the parenthesis stands in front of the
+				// first token inside it
+				if g, ok := v.Interface().(ast.GroupedExpression); ok {
+					pending = append(pending, g.Token.LeadingComments...)
+				}
 				rec(v.FieldByName("Expression"))
 				return
 			}
